@@ -123,10 +123,16 @@ type Config struct {
 	FixFingerInterval time.Duration
 	PredCheckInterval time.Duration
 	MaxDelay          time.Duration // per-call random delay upper bound (0 = only Gosched bursts)
-	DelayProb         float64       // probability that a call is delayed at all
-	Logger            *zap.Logger
-	KeepLog           bool
-	NewKV             func(id uint64) (chord.KVProvider, func()) // nil = memory
+	// SlowMethod/SlowArg/SlowDelay: every call of that method (and argument summary, if set)
+	// is delivered only after SlowDelay - e.g. a slow FinishJoin("release") keeps the
+	// membership lock of a node held long enough for other attempts to exhaust their retries
+	SlowMethod string
+	SlowArg    string
+	SlowDelay  time.Duration
+	DelayProb  float64 // probability that a call is delayed at all
+	Logger     *zap.Logger
+	KeepLog    bool
+	NewKV      func(id uint64) (chord.KVProvider, func()) // nil = memory
 }
 
 type Net struct {
@@ -360,6 +366,9 @@ func (n *Net) invoke(owner, target uint64, method, arg string, fn func(t *rchord
 	}
 
 	n.delay()
+	if n.cfg.SlowDelay > 0 && (n.cfg.SlowMethod == method || (n.cfg.SlowMethod == "Finish*" && (method == "FinishJoin" || method == "FinishLeave"))) && (n.cfg.SlowArg == "" || n.cfg.SlowArg == arg) {
+		time.Sleep(n.cfg.SlowDelay)
+	}
 
 	// fault rules and gates
 	var (
